@@ -70,6 +70,6 @@ m = {"version": 1,
      "checks": checks,
      "not_applicable": [{"property_id": p, "reason": "check not registered yet in this round (planned, DESIGN.md section 4); runtime monitoring applies"}
                         for p in PLANNED if p not in CHECKS],
-     "notes": "Exit codes: 0 held (KNOWN-FINDING lines allowed), 1 VIOLATION, 2 inconclusive. Genuine defects repaired in /repo are listed as 'fixed:' in KNOWN_FINDINGS.txt. The interpreter's hash seed is part of the workload (a function of seed, tier and shard; recorded in evidence and replay files). C01, C02, C12, C18, C19 and C20 also run a batch of their texts in child interpreters under other hash seeds, -W error, an ASCII default encoding, -O and another current directory (kpverif/envchild.py). Every document is imported through one of six public entry points in turn, exports through long-lived option objects alternate with one long-lived Exporter object, and C03, C07 and C13 re-take exports of earlier documents after later imports (kpverif/kpx.py). A driver stopped by an exception raised inside kernpy reports a violation (library-raised-in-unguarded-call) besides being inconclusive. 253 seeded changes with the checks that catch them are under seeded/ (DESIGN.md section 10)."}
+     "notes": "Exit codes: 0 held (KNOWN-FINDING lines allowed), 1 VIOLATION, 2 inconclusive. Genuine defects repaired in /repo are listed as 'fixed:' in KNOWN_FINDINGS.txt. The interpreter's hash seed is part of the workload (a function of seed, tier and shard; recorded in evidence and replay files). C01, C02, C12, C18, C19 and C20 also run a batch of their texts in child interpreters under other hash seeds, -W error, an ASCII default encoding, -O and another current directory (kpverif/envchild.py). Every document is imported through one of six public entry points in turn, exports through long-lived option objects alternate with one long-lived Exporter object, and C03, C07 and C13 re-take exports of earlier documents after later imports (kpverif/kpx.py). A driver stopped by an exception raised inside kernpy reports a violation (library-raised-in-unguarded-call) besides being inconclusive. 263 seeded changes with the checks that catch them are under seeded/ (DESIGN.md section 10)."}
 json.dump(m, open('MANIFEST.json', 'w'), indent=1)
 print(len(checks), 'checks;', len(m['not_applicable']), 'not applicable')
